@@ -51,7 +51,6 @@ def fstack_passes_operand_through(case):
 def run(tier, seed):
     ck = Check("C14", tier, seed)
     ck.preds["c14_extract_binary_after_view"] = binary_after_view
-    ck.preds["c14_fstack_passes_operand_through"] = fstack_passes_operand_through
     quick = tier == "quick"
     maxd = 2 if quick else 3
     ck.add_mc(vlib.tlc_model_check("Functional", "MC_Functional_" + tier, workers=8, timeout=2400))
